@@ -11,9 +11,9 @@ def asciiLower (s : String) : String := String.ofList (s.toList.map Char.toLower
 /-- what the theorems assume of Base58Check -/
 structure B58Laws (env : Env) : Prop where
   /-- C11_b58check_rt -/
-  b58_rt : ∀ d, d ≠ [] → env.b58cDec (env.b58cEnc d) = some d
+  b58_rt : ∀ k d, d ≠ [] → env.b58cDec k (env.b58cEnc k d) = some d
   /-- C11_b58check_accepts_iff + C11_b58_enc_dec: an accepted string is the encoding of its payload -/
-  b58_canon : ∀ s d, env.b58cDec s = some d → env.b58cEnc d = s
+  b58_canon : ∀ k s d, env.b58cDec k s = some d → env.b58cEnc k d = s
 
 /-- an HRP BIP173 allows and short enough for a 32-byte program to fit 90 characters (checked over the table) -/
 def hrpOk (hrp : String) : Bool :=
